@@ -1201,6 +1201,8 @@ lydxml_envelope(struct lyxml_ctx *xmlctx, const char *name, const char *uri, ly_
     const char *prefix;
     size_t prefix_len;
 
+    *envp = NULL;
+
     if (xmlctx->status != LYXML_ELEMENT) {
         /* nothing to parse */
         return LY_ENOT;
